@@ -24,6 +24,7 @@ def streams(tier, seed):
     nrand = 1000 if tier == "quick" else 30000
     maxn = 9 if tier == "quick" else 12
     rand = [tb.gen_case(rng, maxn) for _ in range(nrand)]
+    rand += [tb.gen_big_case(rng) for _ in range(24 if tier == "quick" else 600)]
     exh = list(tb.exhaustive_cases(4))
     if tier == "quick":
         exh = [c for i, c in enumerate(exh) if c["n"] <= 3 or (i // 2) % 4 == seed % 4]
@@ -58,7 +59,8 @@ def main(tier, seed):
     c["rule"] = ("cases = (builder, symmetric grid matrix): an exhaustive small scope (all matrices over {1/2,1,3/2}, "
                  "n<=%s, both builders) plus seeded random cases, n<=%d: ultrametric matrices of random trees with "
                  "strictly increasing heights, additive matrices of random trees with positive branch lengths, "
-                 "tie-heavy arbitrary symmetric matrices.  Non-trivial = n>=3 (at least two merges); distinct by full "
+                 "tie-heavy arbitrary symmetric matrices, additive trees with long cherries and short inner edges, and cases "
+                 "with 13-16 taxa and a sibling pair named (1,x).  Non-trivial = n>=3 (at least two merges); distinct by full "
                  "input.  NJ tree matrices are compared with the model only on margin-certified cases "
                  "(%d certified, %d rejected by the filter; rejected cases still pass through every checker)."
                  % ("3 (+1/4 of n=4)" if tier == "quick" else "4", 9 if tier == "quick" else 12, certified, rejected))
